@@ -1,6 +1,7 @@
 //! C19 — the output file holds one intact record per response under any parallelism.
 
 use super::c06::{gen_batch_case, parse_json_lines, StageProbe};
+use super::common::world_reach;
 use crate::driver::{fnv64, Check, ChildResult, Tier, Violation};
 use crate::oracle::*;
 use crate::scenario::{execute, Case, ExecOpts, Obs};
@@ -16,8 +17,186 @@ fn parse_cells(row: &str) -> Vec<Value> {
     row.split(',').map(|c| if c.is_empty() { Value::Null } else { serde_json::from_str(c).unwrap_or(Value::String(format!("UNPARSEABLE:{}", c))) }).collect()
 }
 
-fn rows_match(a: &[Value], b: &[Value]) -> bool {
-    a.len() == b.len() && a.iter().zip(b.iter()).all(|(x, y)| json_close(x, y, 1e-9))
+fn rows_match(a: &[Value], wild: &[bool], b: &[Value]) -> bool {
+    a.len() == b.len() && a.iter().zip(b.iter()).enumerate().all(|(i, (x, y))| wild.get(i).copied().unwrap_or(false) || json_close(x, y, 1e-9))
+}
+
+fn strip_csv_keys(r: &Value) -> Value {
+    let mut x = r.clone();
+    if let Some(m) = x.as_object_mut() {
+        m.remove("csv_error");
+        let only_csv = m.get("error").and_then(|e| e.as_object()).map_or(false, |e| e.len() == 1 && e.contains_key("csv"));
+        if only_csv {
+            m.remove("error");
+        }
+    }
+    x
+}
+
+/// one file sink: the bytes of its file against the expected (isolated) and the returned responses
+#[allow(clippy::too_many_arguments)]
+fn judge_sink(out: &crate::world::OutFile, earlier_csv: &[Vec<(String, Value)>], data: &Option<Vec<u8>>, si: usize, expected_ref: &[Value], returned_search: &[Value], all_ok: bool, relaxed: bool, hard_fired: u64, any_csv: bool, persist: bool, v: &mut Vec<Violation>, bump: &mut dyn FnMut(&str, u64)) {
+    let data = match data {
+        Some(d) => d.clone(),
+        None => {
+            if relaxed && si > 0 {
+                return; // the first sink's header write failed: the second file was never opened
+            }
+            v.push(Violation { class: "file-missing".into(), detail: format!("output file of sink {} was not created", si) });
+            return;
+        }
+    };
+    let mut text = match String::from_utf8(data) {
+        Ok(t) => t,
+        Err(e) => {
+            v.push(Violation { class: "file-corrupt".into(), detail: format!("output file is not UTF-8: {}", e) });
+            return;
+        }
+    };
+    if out.preexisting {
+        if !text.starts_with(PREEXISTING_JSON) {
+            v.push(Violation { class: "preexisting-clobbered".into(), detail: "records left in the file by an earlier session were not kept at its start".into() });
+            return;
+        }
+        text = text[PREEXISTING_JSON.len()..].to_string();
+        bump("preexisting_file", 1);
+    }
+    match &out.format {
+        OutFormat::Json => {
+            if relaxed {
+                // hard fault: may fail or lose un-acknowledged data, never wrong data. At most one damaged line per hard fault.
+                let want = multiset(expected_ref.iter().map(|r| essence(r).request));
+                let mut bad = 0u64;
+                let mut got: BTreeMap<String, usize> = BTreeMap::new();
+                for line in text.lines() {
+                    match serde_json::from_str::<Value>(line) {
+                        Ok(rec) if rec.get("request").is_some() => *got.entry(essence(&rec).request).or_insert(0) += 1,
+                        _ => bad += 1,
+                    }
+                }
+                if bad > hard_fired {
+                    v.push(Violation { class: "hard-fault-damage".into(), detail: format!("{} damaged lines after {} hard write faults", bad, hard_fired) });
+                }
+                for (k, n) in &got {
+                    if want.get(k).copied().unwrap_or(0) < *n {
+                        v.push(Violation { class: "hard-fault-duplicate".into(), detail: format!("record for {} appears {} times after a failed write", k, n) });
+                    }
+                }
+            } else {
+                match parse_json_lines(text.as_bytes()) {
+                    Err(e) => v.push(Violation { class: "file-corrupt".into(), detail: e }),
+                    Ok(recs) => {
+                        bump("records_found", recs.len() as u64);
+                        if all_ok {
+                            let recs_cmp: Vec<Value> = if any_csv { recs.iter().map(strip_csv_keys).collect() } else { recs.clone() };
+                            for (c, d) in compare_by_request(expected_ref, &recs_cmp, 1e-9) {
+                                v.push(Violation { class: format!("file-{}", c), detail: d });
+                            }
+                            if persist {
+                                // each record parses back to exactly the response that was produced
+                                let mut used = vec![false; recs.len()];
+                                for r in returned_search {
+                                    let r = if any_csv { strip_csv_keys(r) } else { r.clone() };
+                                    let key = canon_blind(&r);
+                                    let hit = recs_cmp.iter().enumerate().position(|(i, x)| !used[i] && canon_blind(x) == key && json_close(x, &r, 1e-12));
+                                    match hit {
+                                        Some(i) => used[i] = true,
+                                        None => {
+                                            v.push(Violation { class: "file-not-the-response".into(), detail: format!("no file record equals the response returned to the caller: {}", canon(&r).chars().take(400).collect::<String>()) });
+                                            break;
+                                        }
+                                    }
+                                }
+                            }
+                        }
+                    }
+                }
+            }
+        }
+        OutFormat::Csv { .. } => {
+            if !text.ends_with('\n') && !relaxed {
+                v.push(Violation { class: "file-corrupt".into(), detail: "CSV file does not end with a newline (truncated row)".into() });
+            }
+            let mut lines: Vec<&str> = text.lines().collect();
+            if lines.is_empty() {
+                if relaxed {
+                    bump("header_lost_to_hard_fault", 1);
+                } else {
+                    v.push(Violation { class: "csv-no-header".into(), detail: "CSV file is empty: no header".into() });
+                }
+                return;
+            }
+            let header = lines.remove(0);
+            let cols = match csv_columns_from_header(&out.format, header) {
+                Ok(c) => c,
+                Err(e) => {
+                    if relaxed {
+                        // the injected hard fault hit the header write itself: an un-acknowledged write may be lost
+                        bump("header_lost_to_hard_fault", 1);
+                    } else {
+                        v.push(Violation { class: "csv-header".into(), detail: e });
+                    }
+                    return;
+                }
+            };
+            if lines.iter().any(|l| *l == header) {
+                v.push(Violation { class: "csv-header-repeated".into(), detail: "the header appears more than once".into() });
+            }
+            bump("csv_rows_found", lines.len() as u64);
+            // expected rows from the isolated responses (the formatter sees the response before it adds anything)
+            let expected_rows: Vec<Vec<Value>> = expected_ref.iter().map(|r| parse_cells(&expected_row(&cols, r).0)).collect();
+            // a CSV sink earlier in a combined policy has recorded its unmappable columns in the response
+            // ("error" / "csv_error") before this sink saw it: columns that read the error are then not comparable
+            let wild: Vec<Vec<bool>> = expected_ref
+                .iter()
+                .map(|r| {
+                    let tainted = earlier_csv.iter().any(|m| expected_row(m, r).1);
+                    cols.iter().map(|(_, m)| tainted && m.to_string().contains("error")).collect()
+                })
+                .collect();
+            let csv_err_rows = expected_ref.iter().filter(|r| expected_row(&cols, r).1).count();
+            bump("csv_rows_with_unmappable_cell", csv_err_rows as u64);
+            let mut used = vec![false; lines.len()];
+            let actual_rows: Vec<Vec<Value>> = lines.iter().map(|l| parse_cells(l)).collect();
+            let mut missing = 0;
+            let mut example = String::new();
+            // exact rows first, rows with incomparable cells last (greedy matching must not let a
+            // wildcard row take the place of an exact one)
+            let mut order: Vec<usize> = (0..expected_rows.len()).collect();
+            order.sort_by_key(|i| wild[*i].iter().filter(|w| **w).count());
+            for ei in order {
+                let er = &expected_rows[ei];
+                let mut found = false;
+                for (i, ar) in actual_rows.iter().enumerate() {
+                    if !used[i] && rows_match(er, &wild[ei], ar) {
+                        used[i] = true;
+                        found = true;
+                        break;
+                    }
+                }
+                if !found {
+                    missing += 1;
+                    if example.is_empty() {
+                        example = format!("{:?}", er);
+                    }
+                }
+            }
+            let extra = used.iter().filter(|u| !**u).count() as u64;
+            if relaxed {
+                if extra > hard_fired {
+                    v.push(Violation { class: "hard-fault-damage".into(), detail: format!("{} damaged/unexpected rows after {} hard write faults", extra, hard_fired) });
+                }
+            } else if all_ok {
+                if missing > 0 {
+                    v.push(Violation { class: "csv-row-missing".into(), detail: format!("{} expected rows are not in the file (columns {:?}), e.g. {}", missing, cols.iter().map(|c| &c.0).collect::<Vec<_>>(), example) });
+                }
+                if extra > 0 {
+                    let i = used.iter().position(|u| !*u).unwrap();
+                    v.push(Violation { class: "csv-row-extra".into(), detail: format!("{} rows in the file belong to no response, e.g. {:?}", extra, lines[i]) });
+                }
+            }
+        }
+    }
 }
 
 pub fn judge(case: &Case, obs: &Obs) -> (Vec<Violation>, BTreeMap<String, u64>, bool) {
@@ -79,28 +258,6 @@ pub fn judge(case: &Case, obs: &Obs) -> (Vec<Violation>, BTreeMap<String, u64>, 
     }
     let nontrivial = expected_ref.len() > 1;
     bump("records_expected", expected_ref.len() as u64);
-    let data = match &obs.out_file {
-        Some(d) => d.clone(),
-        None => {
-            v.push(Violation { class: "file-missing".into(), detail: "output file was not created".into() });
-            return (v, reach, nontrivial);
-        }
-    };
-    let mut text = match String::from_utf8(data) {
-        Ok(t) => t,
-        Err(e) => {
-            v.push(Violation { class: "file-corrupt".into(), detail: format!("output file is not UTF-8: {}", e) });
-            return (v, reach, nontrivial);
-        }
-    };
-    if out.preexisting {
-        if !text.starts_with(PREEXISTING_JSON) {
-            v.push(Violation { class: "preexisting-clobbered".into(), detail: "records left in the file by an earlier session were not kept at its start".into() });
-            return (v, reach, nontrivial);
-        }
-        text = text[PREEXISTING_JSON.len()..].to_string();
-        bump("preexisting_file", 1);
-    }
     let relaxed = hard && hard_fired > 0;
     if relaxed {
         bump("relaxed_oracle_runs", 1);
@@ -111,125 +268,25 @@ pub fn judge(case: &Case, obs: &Obs) -> (Vec<Violation>, BTreeMap<String, u64>, 
             v.push(Violation { class: "hard-fault-swallowed".into(), detail: format!("{} hard write fault(s) were injected but every run() returned Ok", hard_fired) });
         }
     }
-    match &out.format {
-        OutFormat::Json => {
-            if relaxed {
-                // hard fault: may fail or lose un-acknowledged data, never wrong data. At most one damaged line per hard fault.
-                let want = multiset(expected_ref.iter().map(|r| essence(r).request));
-                let mut bad = 0u64;
-                let mut got: BTreeMap<String, usize> = BTreeMap::new();
-                for line in text.lines() {
-                    match serde_json::from_str::<Value>(line) {
-                        Ok(rec) if rec.get("request").is_some() => *got.entry(essence(&rec).request).or_insert(0) += 1,
-                        _ => bad += 1,
-                    }
-                }
-                if bad > hard_fired {
-                    v.push(Violation { class: "hard-fault-damage".into(), detail: format!("{} damaged lines after {} hard write faults", bad, hard_fired) });
-                }
-                for (k, n) in &got {
-                    if want.get(k).copied().unwrap_or(0) < *n {
-                        v.push(Violation { class: "hard-fault-duplicate".into(), detail: format!("record for {} appears {} times after a failed write", k, n) });
-                    }
-                }
-            } else {
-                match parse_json_lines(text.as_bytes()) {
-                    Err(e) => v.push(Violation { class: "file-corrupt".into(), detail: e }),
-                    Ok(recs) => {
-                        bump("records_found", recs.len() as u64);
-                        if all_ok {
-                            for (c, d) in compare_by_request(&expected_ref, &recs, 1e-9) {
-                                v.push(Violation { class: format!("file-{}", c), detail: d });
-                            }
-                            if case.world.persist {
-                                // each record parses back to exactly the response that was produced
-                                let mut used = vec![false; recs.len()];
-                                for r in &returned_search {
-                                    let key = canon_blind(r);
-                                    let hit = recs.iter().enumerate().position(|(i, x)| !used[i] && canon_blind(x) == key && json_close(x, r, 1e-12));
-                                    match hit {
-                                        Some(i) => used[i] = true,
-                                        None => {
-                                            v.push(Violation { class: "file-not-the-response".into(), detail: format!("no file record equals the response returned to the caller: {}", canon(r).chars().take(400).collect::<String>()) });
-                                            break;
-                                        }
-                                    }
-                                }
-                            }
-                        }
-                    }
-                }
+    // a CSV sink reports unmappable columns inside the response it was handed ("error": {"csv": ..} or
+    // "csv_error"): with a combined policy the other sink and the caller may or may not see that key,
+    // depending on the order of the sinks; it is not part of the search response
+    let any_csv = [Some(out), case.world.out2.as_ref()].iter().flatten().any(|o| matches!(o.format, OutFormat::Csv { .. }));
+    let sinks: Vec<(&crate::world::OutFile, &Option<Vec<u8>>)> = match &case.world.out2 {
+        Some(o2) => {
+            bump("combined_sinks", 1);
+            vec![(out, &obs.out_file), (o2, &obs.out_file2)]
+        }
+        None => vec![(out, &obs.out_file)],
+    };
+    let mut earlier_csv: Vec<Vec<(String, Value)>> = vec![];
+    for (si, (sink, data)) in sinks.iter().enumerate() {
+        if si > 0 {
+            if let OutFormat::Csv { mapping, .. } = &sinks[si - 1].0.format {
+                earlier_csv.push(mapping.clone());
             }
         }
-        OutFormat::Csv { .. } => {
-            if !text.ends_with('\n') && !relaxed {
-                v.push(Violation { class: "file-corrupt".into(), detail: "CSV file does not end with a newline (truncated row)".into() });
-            }
-            let mut lines: Vec<&str> = text.lines().collect();
-            if lines.is_empty() {
-                if relaxed {
-                    bump("header_lost_to_hard_fault", 1);
-                } else {
-                    v.push(Violation { class: "csv-no-header".into(), detail: "CSV file is empty: no header".into() });
-                }
-                return (v, reach, nontrivial);
-            }
-            let header = lines.remove(0);
-            let cols = match csv_columns_from_header(&out.format, header) {
-                Ok(c) => c,
-                Err(e) => {
-                    if relaxed {
-                        // the injected hard fault hit the header write itself: an un-acknowledged write may be lost
-                        bump("header_lost_to_hard_fault", 1);
-                    } else {
-                        v.push(Violation { class: "csv-header".into(), detail: e });
-                    }
-                    return (v, reach, nontrivial);
-                }
-            };
-            if lines.iter().any(|l| *l == header) {
-                v.push(Violation { class: "csv-header-repeated".into(), detail: "the header appears more than once".into() });
-            }
-            bump("csv_rows_found", lines.len() as u64);
-            // expected rows from the isolated responses (the formatter sees the response before it adds anything)
-            let expected_rows: Vec<Vec<Value>> = expected_ref.iter().map(|r| parse_cells(&expected_row(&cols, r).0)).collect();
-            let csv_err_rows = expected_ref.iter().filter(|r| expected_row(&cols, r).1).count();
-            bump("csv_rows_with_unmappable_cell", csv_err_rows as u64);
-            let mut used = vec![false; lines.len()];
-            let actual_rows: Vec<Vec<Value>> = lines.iter().map(|l| parse_cells(l)).collect();
-            let mut missing = 0;
-            let mut example = String::new();
-            for er in &expected_rows {
-                let mut found = false;
-                for (i, ar) in actual_rows.iter().enumerate() {
-                    if !used[i] && rows_match(er, ar) {
-                        used[i] = true;
-                        found = true;
-                        break;
-                    }
-                }
-                if !found {
-                    missing += 1;
-                    if example.is_empty() {
-                        example = format!("{:?}", er);
-                    }
-                }
-            }
-            let extra = used.iter().filter(|u| !**u).count() as u64;
-            if relaxed {
-                if extra > hard_fired {
-                    v.push(Violation { class: "hard-fault-damage".into(), detail: format!("{} damaged/unexpected rows after {} hard write faults", extra, hard_fired) });
-                }
-            } else if all_ok {
-                if missing > 0 {
-                    v.push(Violation { class: "csv-row-missing".into(), detail: format!("{} expected rows are not in the file (columns {:?}), e.g. {}", missing, cols.iter().map(|c| &c.0).collect::<Vec<_>>(), example) });
-                }
-                if extra > 0 {
-                    let i = used.iter().position(|u| !*u).unwrap();
-                    v.push(Violation { class: "csv-row-extra".into(), detail: format!("{} rows in the file belong to no response, e.g. {:?}", extra, lines[i]) });
-                }
-            }
-        }
+        judge_sink(sink, &earlier_csv, data, si, &expected_ref, &returned_search, all_ok, relaxed, hard_fired, any_csv, case.world.persist, &mut v, &mut bump);
     }
     // the response handed back still carries what the isolated response carries
     if case.world.persist && all_ok {
@@ -301,6 +358,7 @@ impl Check for C19 {
         let obs = execute(case, ExecOpts { reference: true, trace: false, log_clock: false, explore_build: false }, Box::new(probe), fatal_fd);
         let (violations, mut reach, nontrivial) = judge(case, &obs);
         reach.insert("preemptions".into(), obs.stats.preemptions);
+        world_reach(&case.world, &mut reach);
         reach.insert("sim_writes".into(), obs.stats.sim_writes);
         let sig = fnv64(&format!("{}|{}|{:?}", serde_json::to_string(&case.batches).unwrap(), obs.stats.sched_hash, obs.recorded.faults.len()));
         ChildResult {
